@@ -41,3 +41,129 @@ ITEM = Contract(
 )
 ITEM.enum = enum_item
 CONTRACTS = [ITEM]
+
+
+# ---------------------------------------------------------------------------------------------- AnnotatedState.__init__ / .s (C18)
+def replay_init(inp):
+    from lightworks.emulator.state import AnnotatedState
+    st = inp["state"]
+    if not isinstance(st, list) or not all(isinstance(m, list) and all(isinstance(x, int) for x in m) for m in st):
+        return None
+    src = [list(m) for m in st]
+    a = AnnotatedState(src)
+    if src != [list(m) for m in st]:
+        return f"AnnotatedState({st}) changed its argument to {src}"
+    if a.s != [sorted(m) for m in st]:
+        return f"AnnotatedState({st}).s = {a.s}: not the sorted label lists"
+    for m in src:
+        m.append(7)
+    if a.s != [sorted(m) for m in st]:
+        return f"AnnotatedState({st}) shares a per-mode list with its argument: appending to the argument's lists changed the state to {a}"
+    return None
+
+
+def enum_init():
+    import itertools
+    modes = [[], [0], [2], [1, 0], [0, 0], [2, 0, 1]]
+    for k in (1, 2):
+        for st in itertools.product(modes, repeat=k):
+            yield {"state": [list(m) for m in st]}
+
+
+def _init(k):
+    stored = [f"self.__s[{i}]" for i in range(k)]
+    given = [f"state[{i}]" for i in range(k)]
+    c = Contract(
+        target=f"{F}:AnnotatedState.__init__",
+        types={"self": "obj:AnnotatedState{__s:none}", "state": f"clist[{k}:list[int]]"},
+        requires=[], modifies=["self.__s"],
+        ensures={
+            "one_list_per_mode": f"len(self.__s) == {k}",
+            # the state owns every per-mode list (whatever the number of labels on the mode): nothing the caller does to the argument reaches it
+            "owns_its_lists": " and ".join([f"fresh_ref({s})" for s in stored] + ["fresh_ref(self.__s)"]),
+            "same_number_of_labels": " and ".join(f"len({s}) == len({g})" for s, g in zip(stored, given)),
+            "labels_in_order": " and ".join(f"forall((t,u), implies(0 <= t and t < u and u < len({s}), at({s},t) <= at({s},u)))" for s in stored),
+            "argument_unchanged": " and ".join(f"len({g}) == old(len({g})) and forall(t, implies(0 <= t and t < len({g}), at({g},t) == old(at({g},t))))" for g in given),
+        },
+        raises={}, replay=replay_init, props=["C18"],
+    )
+    c.enum = enum_init
+    c.no_callee = True
+    c.label = f"{k} mode(s)"
+    return c
+
+
+def replay_s(inp):
+    from lightworks.emulator.state import AnnotatedState
+    s = inp["self"]["_AnnotatedState__s"]
+    a = AnnotatedState([list(m) for m in s])
+    got = a.s
+    if got != [sorted(m) for m in s]:
+        return f"AnnotatedState({s}).s = {got}"
+    for m in got:
+        m.append(5)
+    got.append([1])
+    if a.s != [sorted(m) for m in s]:
+        return f"AnnotatedState({s}).s hands out internal lists: editing the result changed the state to {a}"
+    return None
+
+
+def enum_s():
+    for s in ([[0], [1]], [[], [2, 0]], [[1, 1], []], [[], []]):
+        yield {"self": {"_AnnotatedState__s": s}}
+
+
+S_GET = Contract(
+    target=f"{F}:AnnotatedState.s", kind="getter",
+    types={"self": ASTATE},
+    requires=[], modifies=[],
+    ensures={
+        "copies": "fresh_ref(result) and fresh_ref(result[0]) and fresh_ref(result[1]) and len(result) == 2",
+        "same_labels": " and ".join(f"len(result[{i}]) == len(self.__s[{i}]) and forall(t, implies(0 <= t and t < len(result[{i}]), at(result[{i}], t) == at(self.__s[{i}], t)))" for i in (0, 1)),
+    },
+    raises={}, replay=replay_s, props=["C18"],
+)
+S_GET.enum = enum_s
+S_GET.no_callee = True
+CONTRACTS += [_init(1), _init(2), S_GET]
+
+
+# ---------------------------------------------------------------------------------------------- n_photons / merge / __add__ (C18)
+NPH = Contract(
+    target=f"{F}:AnnotatedState.n_photons", kind="getter",
+    types={"self": ASTATE},
+    requires=[], modifies=[],
+    ensures={"total_number_of_labels": "result == len(self.__s[0]) + len(self.__s[1])"},
+    raises={}, props=["C18"],
+)
+NPH.no_callee = True
+
+MERGE = Contract(
+    target=f"{F}:AnnotatedState.merge",
+    types={"self": ASTATE, "merge_state": [ASTATE, "obj:AnnotatedState{__s:clist[1:list[int]]}"]},
+    requires=[], modifies=[],
+    ensures={
+        "a_new_state": "fresh_ref(result) and fresh_ref(result.__s) and fresh_ref(result.__s[0]) and fresh_ref(result.__s[1]) and len(result.__s) == 2",
+        # mode-wise union of the label multisets: as many labels per mode as both states hold there together, kept in order
+        "labels_per_mode_add_up": "len(result.__s[0]) == len(self.__s[0]) + len(merge_state.__s[0]) and len(result.__s[1]) == len(self.__s[1]) + len(merge_state.__s[1])",
+        "labels_in_order": " and ".join(f"forall((t,u), implies(0 <= t and t < u and u < len(result.__s[{i}]), at(result.__s[{i}],t) <= at(result.__s[{i}],u)))" for i in (0, 1)),
+        "operands_unchanged": " and ".join(f"len({o}.__s[{i}]) == old(len({o}.__s[{i}]))" for o in ("self", "merge_state") for i in (0, 1)),
+    },
+    raises={"ValueError": "len(merge_state.__s) != 2"},
+    props=["C18"],
+)
+MERGE.no_callee = True
+
+ADD = Contract(
+    target=f"{F}:AnnotatedState.__add__",
+    types={"self": ASTATE, "value": [ASTATE, "int"]},
+    requires=[], modifies=[],
+    ensures={
+        "a_new_state": "fresh_ref(result) and fresh_ref(result.__s) and len(result.__s) == 4 and " + " and ".join(f"fresh_ref(result.__s[{i}])" for i in range(4)),
+        "modes_concatenated": " and ".join([f"len(result.__s[{i}]) == len(self.__s[{i}])" for i in (0, 1)] + [f"len(result.__s[{i + 2}]) == len(value.__s[{i}])" for i in (0, 1)]),
+    },
+    raises={"TypeError": "not isinstance(value, AnnotatedState)"},
+    props=["C18"],
+)
+ADD.no_callee = True
+CONTRACTS += [NPH, MERGE, ADD]
